@@ -96,6 +96,16 @@ M = [
  ("repetition-board-passes-other-turn", "src/board/mod.rs", "        self.position_info.count_current_position(self.turn)", "        self.position_info.count_current_position(self.turn.opposite())", "violation", ["C17"]),
  ("benign-repetition-get-copied", "src/board/position_info.rs", "        let count = *self.position_count.get(&key).unwrap();\n        self.max_seen_position_count_stack.push(count);\n        count", "        let count = *self.position_count.get(&key).unwrap();\n        let reported = count;\n        self.max_seen_position_count_stack.push(reported);\n        reported", "ok", ["C17"]),
  ("game-forgets-history", "src/game/game.rs", "            Ok(_capture) => {\n                self.save_move(chess_move.clone());\n                Ok(())", "            Ok(_capture) => {\n                Ok(())", "violation", ["C17"]),
+ ("annotate-forgets-undo", "src/move_generator/mod.rs", "            ChessMoveEffect::None\n        };\n        chess_move.undo(board).unwrap();\n", "            ChessMoveEffect::None\n        };\n", "violation", ["C06"]),
+ # ---- the Game API (C14 coordinate pairs, C15 engine move)
+ ("game-find-ignores-to-square", "src/game/game.rs", "            .find(|m| m.from_square() == from_square && m.to_square() == to_square)\n            .ok_or(GameError::InvalidMove)?;\n        self.apply_chess_move(chess_move.clone())?;", "            .find(|m| m.from_square() == from_square)\n            .ok_or(GameError::InvalidMove)?;\n        self.apply_chess_move(chess_move.clone())?;", "violation", ["C14"]),
+ ("game-coordinates-not-recorded", "src/game/game.rs", "            Ok(_capture) => {\n                self.save_move(chess_move.clone());\n                Ok(())", "            Ok(_capture) => {\n                Ok(())", "violation", ["C14"]),
+ ("game-rejection-toggles-turn", "src/game/game.rs", "            .ok_or(GameError::InvalidMove)?;\n        self.apply_chess_move(chess_move.clone())?;\n        Ok(chess_move.clone())", "            .ok_or_else(|| GameError::InvalidMove);\n        let chess_move = match chess_move { Ok(m) => m, Err(e) => { self.board.toggle_turn(); return Err(e); } };\n        self.apply_chess_move(chess_move.clone())?;\n        Ok(chess_move.clone())", "undecided", ["C14"]),
+ ("game-applies-for-other-side", "src/game/game.rs", "        let turn = self.board.turn();\n        let candidates = self.move_generator.generate_moves(&mut self.board, turn);", "        let turn = self.board.turn().opposite();\n        let candidates = self.move_generator.generate_moves(&mut self.board, turn);", "violation", ["C14"]),
+ ("engine-book-miss-is-error", "src/game/game.rs", "            None => self.select_alpha_beta_best_move(),", "            None => return Err(GameError::InvalidMove),", "violation", ["C15"]),
+ ("engine-book-takes-first-candidate", "src/game/game.rs", "        match maybe_chess_move {\n            Some(result) => Ok(result.clone()),", "        match maybe_chess_move {\n            Some(_result) => Ok(candidates[0].clone()),", "ok", ["C15"]),
+ ("engine-book-returns-unlisted-move", "src/game/game.rs", "        let candidates = self\n            .move_generator\n            .generate_moves_and_lazily_update_chess_move_effects(&mut self.board, current_turn);\n\n        let maybe_chess_move", "        let candidates = self\n            .move_generator\n            .generate_moves_and_lazily_update_chess_move_effects(&mut self.board, current_turn.opposite());\n\n        let maybe_chess_move", "violation", ["C15"]),
+ ("benign-game-find-swapped-conjuncts", "src/game/game.rs", "            .find(|m| m.from_square() == from_square && m.to_square() == to_square)\n            .ok_or(GameError::InvalidMove)?;", "            .find(|m| m.to_square() == to_square && m.from_square() == from_square)\n            .ok_or(GameError::InvalidMove)?;", "ok", ["C14"]),
  # ---- search value (C08)
  ("cache-key-drops-depth", "src/alpha_beta_searcher/mod.rs", "        board.current_position_hash(),\n        depth,\n        maximizing_player,", "        board.current_position_hash(),\n        0,\n        maximizing_player,", "violation", ["C08"]),
  ("cache-key-drops-side", "src/alpha_beta_searcher/mod.rs", "        depth,\n        maximizing_player,\n        alpha,", "        depth,\n        true,\n        alpha,", "violation", ["C08"]),
